@@ -52,6 +52,9 @@ Definition TOP : nat := slot_Call_onlyarg.      (* inside parentheses / call arg
 (* ---------- the printer of the core (mirrors Unparse.utoks; the equality of the two is evaluated on every run) ---------- *)
 Definition pparen (b : bool) (ts : list pt) : list pt := if b then PK "(" :: ts ++ [PK ")"] else ts.
 
+(* `1.real` would be a float literal followed by a name: the unparser writes (1).real *)
+Definition int_literal (v : expr) : bool := match v with Constant (CInt z) => Z.leb 0 z | _ => false end.
+
 Fixpoint pp (slot : nat) (e : expr) {struct e} : list pt :=
   let body :=
     match e with
@@ -70,7 +73,7 @@ Fixpoint pp (slot : nat) (e : expr) {struct e} : list pt :=
     | IfExp t b o => pp slot_IfExp_body b ++ PK "if" :: pp slot_IfExp_test t ++ PK "else" :: pp slot_IfExp_orelse o
     | Lambda _ _ _ _ _ _ _ body => PK "lambda" :: PK ":" :: pp slot_Lambda_body body
     | NamedExpr t v => PN t :: PK ":=" :: pp slot_NamedExpr_value v
-    | Attribute v a => pp slot_Attribute_value v ++ [PK "."; PN a]
+    | Attribute v a => pparen (int_literal v) (pp slot_Attribute_value v) ++ [PK "."; PN a]
     | Call f args _ =>
         pp slot_Call_func f ++ PK "(" ::
         (match args with
@@ -99,7 +102,7 @@ Definition pbody (e : expr) : list pt :=
   | IfExp t b o => pp slot_IfExp_body b ++ PK "if" :: pp slot_IfExp_test t ++ PK "else" :: pp slot_IfExp_orelse o
   | Lambda _ _ _ _ _ _ _ body => PK "lambda" :: PK ":" :: pp slot_Lambda_body body
   | NamedExpr t v => PN t :: PK ":=" :: pp slot_NamedExpr_value v
-  | Attribute v a => pp slot_Attribute_value v ++ [PK "."; PN a]
+  | Attribute v a => pparen (int_literal v) (pp slot_Attribute_value v) ++ [PK "."; PN a]
   | Call f args _ =>
       pp slot_Call_func f ++ PK "(" ::
       (match args with
@@ -298,5 +301,53 @@ Fixpoint pc (f : nat) (m : mode) (ts : list pt) {struct f} : option (expr * list
 Definition parse_core (ts : list pt) : option expr :=
   match pc (4 * length ts + 8) (MExpr slot_top) ts with
   | Some (e, []) => Some e
+  | _ => None
+  end.
+
+(* ---------- the tie to Unparse.utoks: the unparser's tokens, normalised to the parser's alphabet ---------- *)
+Fixpoint words_go (cur : string) (s : string) : list string :=
+  match s with
+  | EmptyString => match cur with EmptyString => [] | _ => [cur] end
+  | String c r =>
+      if Ascii.eqb c " "%char then (match cur with EmptyString => words_go EmptyString r | _ => cur :: words_go EmptyString r end)
+      else words_go (cur ++ String c EmptyString) r
+  end.
+Definition words (s : string) : list string := words_go EmptyString s.
+
+Definition norm_tok (t : tok) : list pt :=
+  match t with
+  | TName s => [PN s]
+  | TLit c _ => [PL c]
+  | TP s => map PK (words s)
+  | TFText _ => [PK "<f-string>"]
+  end.
+Definition norm (ts : list tok) : list pt := flat_map norm_tok ts.
+
+Definition pt_key (t : pt) : string :=
+  match t with
+  | PN i => "N " ++ i
+  | PL c => "L " ++ Sexp.sexp_to_string (sx_const c)
+  | PK s => "K " ++ s
+  end.
+Definition pts_eqb (a b : list pt) : bool :=
+  (fix go (a b : list pt) : bool :=
+     match a, b with
+     | [], [] => true
+     | x :: a', y :: b' => String.eqb (pt_key x) (pt_key y) && go a' b'
+     | _, _ => false
+     end) a b.
+Definition expr_same (a b : expr) : bool :=
+  String.eqb (Sexp.sexp_to_string (sx_expr a)) (Sexp.sexp_to_string (sx_expr b)).
+
+(* (in the core?, unparser tokens = printer tokens?, parser reads the tree back?) *)
+Definition core_check (e : expr) : bool * bool * bool :=
+  (core e, pts_eqb (norm (utoks slot_top DQ e)) (pp slot_top e),
+   match parse_core (pp slot_top e) with Some e' => expr_same e e' | None => false end).
+
+Definition pt_of (x : Sexp.sexp) : option pt :=
+  match x with
+  | Sexp.L [Sexp.A "N"; i] => option_map PN (Sexp.ident_of i)
+  | Sexp.L [Sexp.A "L"; c] => option_map PL (const_of c)
+  | Sexp.L [Sexp.A "K"; k] => option_map PK (Sexp.bytes_of k)
   | _ => None
   end.
